@@ -272,9 +272,9 @@ func buildAndVerify(vc vcase) VObs {
 			}
 			if layout >= 2 {
 				other.RegistryScopes = []string{"*"}
-				ociDoc.TrustPolicies[0].RegistryScopes = []string{repoName}
+				ociDoc.TrustPolicies[0].RegistryScopes = scopesAround(repoName, vc.sigMut)
 			} else if layout == 1 {
-				ociDoc.TrustPolicies[0].RegistryScopes = []string{repoName}
+				ociDoc.TrustPolicies[0].RegistryScopes = scopesAround(repoName, vc.sigMut)
 			}
 			if layout%2 == 0 {
 				ociDoc.TrustPolicies = append(ociDoc.TrustPolicies, other)
@@ -626,6 +626,20 @@ func (m *mockTrustStore) onDisk(t truststore.Type, name string, usable bool, roo
 		must(os.WriteFile(filepath.Join(d, "a-root.pem"), pemOf(root), 0644))
 		must(os.Symlink(filepath.Join(elsewhere, "root.pem"), filepath.Join(d, "b-linked.pem")))
 	}
+}
+
+// scopesAround: the scope list of a statement that applies to repo - the repository alone, or among several others in no
+// particular order, at any position of the list
+func scopesAround(repo string, salt int) []string {
+	others := []string{"registry.verif.example/zz/last", "registry.verif.example/aa/first", "registry.verif.example/mm/middle", "zz.verif.example/r", "aa.verif.example/r"}
+	n := salt % 6 // how many others
+	if n == 0 {
+		return []string{repo}
+	}
+	out := append([]string{}, others[:n]...)
+	pos := (salt / 6) % (n + 1)
+	out = append(out[:pos], append([]string{repo}, out[pos:]...)...)
+	return out
 }
 
 func caStoreType(s signature.SigningScheme) truststore.Type {
